@@ -162,4 +162,6 @@ def check(pid, tier, regen=False):
                      "validity is not claimed there",
                      "solver-relative is_true/is_false (with constraints) are checked by the solver engine (C11-C13)",
                      "a False answer carries no information and is always accepted"]
+    from . import eng_solver
+    R.coverage["solver_level_calls"] = eng_solver.truth_stream(R, pid, tier, seed)
     return R.finish()
